@@ -2,9 +2,12 @@
 # regression over all kept seeded changes: each against its target check (quick tier, budget $1 s), 4 at a time
 B=${1:-30}
 cd /verif
+# snapshot of the simulator sources, so that editing /verif/sim during the run does not change what is tested
+rm -rf /var/tmp/simsnap; cp -r /verif/sim /var/tmp/simsnap; export SIM_SRC=/var/tmp/simsnap
 ls seeded | while read n; do
   id=$(python3 -c "import json;print(json.load(open('seeded/$n/meta.json'))['breaks_property'])")
   echo "$n $id"
 done > /var/tmp/seedregress.list
 cat /var/tmp/seedregress.list | xargs -P 4 -L 1 bash -c 'r=$(/verif/seedtest.sh /verif/seeded/$0/patch.diff '$B' $1 2>&1 | grep "^== " | head -1); echo "$0 $r"' > /var/tmp/seedregress.log 2>&1
 echo done >> /var/tmp/seedregress.log
+rm -rf /var/tmp/simsnap
